@@ -22,6 +22,12 @@ variant, or one list of recordings handed to ``read``):
              component, empty file, unrecognised bytes)
   read       read(fnames, obspy_read_kwargs, degrees_from_north) for all shape
              combinations of {None, one value, per-recording list}
+  history    sequences at ONE set of file names inside one process: the files are
+             written, read, overwritten (well-formed X / Y / Z that differ in
+             samples, length, rate and metadata; malformed contents) and read
+             again; ALL sequences of a fixed length over that step alphabet,
+             every step judged for what the files hold at that moment (reading
+             must not depend on earlier reads of the same path)
   examples   the repository's own example files (not written by us), expected
              values from obspy (binary formats) or a naive str.split parser
              (SAF, PEER); anchors the reference writers to real files
@@ -873,6 +879,288 @@ def _one_read(root, ctx, entries, labels, kshape, dshape, bare):
 
 
 # ---------------------------------------------------------------------------
+# histories at ONE path: the same file name(s) are written, read, overwritten
+# and read again inside one process.  Every read is judged for what the
+# file(s) hold AT THAT MOMENT: a well-formed content with the per-format
+# oracle above, a malformed one must raise.
+
+TEXT_FAMS = ("saf", "minishark", "peer")
+
+# well-formed contents X, Y, Z per format: other samples, other length, other
+# rate / time step, other orientation metadata and header scaling
+HIST_GOOD = {
+    "saf": dict(
+        X=dict(payload="ramp", n=17, rate=100, north_rot=0, newline="\n", padded=True),
+        Y=dict(payload="inexact", n=40, rate=250, north_rot=15, newline="\r\n", padded=False),
+        Z=dict(payload="extreme", n=2, rate=50, north_rot=350, newline="\n", padded=True)),
+    "minishark": dict(
+        X=dict(payload="ramp", n=17, rate=250, gain=1, conversion=1, newline="\n"),
+        Y=dict(payload="inexact", n=40, rate=100, gain=2, conversion=64, newline="\r\n"),
+        Z=dict(payload="extreme", n=2, rate=50, gain=64, conversion=1, newline="\n")),
+    "peer": dict(
+        X=dict(payload="ramp", style="fortran", n=17, dt=".0200", codes="UP,360,90", newline="\n"),
+        Y=dict(payload="mixed", style="c", n=40, dt=".0050", codes="UP,90,360", newline="\r\n"),
+        Z=dict(payload="zeros", style="fortran", n=2, dt="0.0100", codes="HNZ,HNN,HNE", newline="\n")),
+    "mseed1": dict(
+        X=dict(payload="int32-steim2", n=17, rate=100, naming="BH", byteorder="default"),
+        Y=dict(payload="float64", n=40, rate=250, naming="HH", byteorder="little"),
+        Z=dict(payload="float32", n=2, rate=50, naming="", byteorder="default")),
+    "mseed3": dict(
+        X=dict(payload="int32-steim2", n=17, rate=100, naming="BH", byteorder="default"),
+        Y=dict(payload="float64", n=40, rate=250, naming="HH", byteorder="little"),
+        Z=dict(payload="float32", n=2, rate=50, naming="", byteorder="default")),
+    "sac": dict(
+        X=dict(payload="ramp", n=17, rate=100, naming="BH", endian="little"),
+        Y=dict(payload="inexact", n=40, rate=250, naming="HH", endian="big"),
+        Z=dict(payload="wide", n=2, rate=50, naming="", endian="mixed")),
+    "gcf": dict(
+        X=dict(payload="ramp", n=17, rate=100, naming="BH"),
+        Y=dict(payload="smallstep", n=40, rate=250, naming=""),
+        Z=dict(payload="extreme", n=2, rate=500, naming="BH")),
+}
+
+# malformed contents (all of kinds the 'malformed' family shows to be refused);
+# the i-th kind is derived from the i-th well-formed content, so that two
+# different malformed steps also differ in samples, length and rate
+HIST_BAD = {
+    "saf": ["ndat+1", "text-garbage", "missing-component", "empty-file"],
+    "minishark": ["ndat-1", "text-garbage", "no-gain", "empty-file"],
+    "peer": ["ndat+1@ns", "text-garbage@vt", "ndat-1@ew", "empty-file@ns"],
+    "mseed1": ["two-traces", "random-bytes", "empty-file"],
+    "mseed3": ["random-bytes@ns", "duplicated-component", "empty-file@vt"],
+    "sac": ["random-bytes@ns", "duplicated-component", "empty-file@vt"],
+    "gcf": ["two-traces", "random-bytes", "empty-file"],
+}
+
+# size of the step alphabet (first g well-formed + first b malformed contents)
+# and length of the histories; ALL sequences of that length are run and every
+# step of every sequence is judged
+HIST = {
+    "quick": dict(text=dict(good=2, bad=2, depth=3, prefix=1), binary=dict(good=2, bad=2, depth=3, prefix=1)),
+    "thorough": dict(text=dict(good=3, bad=2, depth=4, prefix=2), binary=dict(good=3, bad=2, depth=3, prefix=1)),
+}
+HIST_READS = {
+    "quick": [dict(dfn=None, kwargs="none", pathtype="str")],
+    "thorough": [dict(dfn=None, kwargs="none", pathtype="str"), dict(dfn=33, kwargs="empty", pathtype="path")],
+}
+
+
+def _hist_alphabet(fam, tier):
+    h = HIST[tier]["text" if fam in TEXT_FAMS else "binary"]
+    return ([f"good:{g}" for g in list(HIST_GOOD[fam])[:h["good"]]] +
+            [f"bad:{b}" for b in HIST_BAD[fam][:h["bad"]]]), h
+
+
+def _spoil(path, how):
+    """Overwrite ``path`` with content no format recognises."""
+    if how == "empty-file":
+        open(path, "wb").close()
+    elif how == "random-bytes":
+        with open(path, "wb") as f:
+            f.write(F.lcg_bytes(4096))
+    elif how == "text-garbage":
+        _garbage_text(path)
+    else:
+        raise KeyError(how)
+
+
+def hist_write(wd, fam, sym):
+    """Write the content named by ``sym`` ('good:<X|Y|Z>' or 'bad:<kind>') to the
+    family's fixed file names inside ``wd`` (overwriting what is there).
+    Returns the variants [dict(label, fnames, exp)]; exp is None for a content
+    that must be refused."""
+    what, name = sym.split(":", 1)
+    if what == "good":
+        return BUILDERS[fam](wd, HIST_GOOD[fam][name])
+    kinds = HIST_BAD[fam]
+    goods = list(HIST_GOOD[fam].values())
+    cfg = goods[kinds.index(name) % len(goods)]
+    kind, _, where = name.partition("@")
+    n = cfg["n"]
+    ndat = {"ndat+1": n + 1, "ndat-1": n - 1}
+    if fam == "saf":
+        if kind in ndat:
+            variants = build_saf(wd, cfg, ndat=ndat[kind])
+        elif kind == "missing-component":
+            variants = build_saf(wd, cfg, drop_lines=("CH2_ID",))
+        else:
+            variants = build_saf(wd, cfg)
+            for v in variants:
+                _spoil(v["fnames"], kind)
+    elif fam == "minishark":
+        if kind in ndat:
+            variants = build_minishark(wd, cfg, nsamples=ndat[kind])
+        else:
+            variants = build_minishark(wd, cfg)
+            p = variants[0]["fnames"]
+            if kind == "no-gain":
+                with open(p, "rb") as f:
+                    text = f.read().decode("ascii")
+                with open(p, "wb") as f:
+                    f.write("".join(ln for ln in text.splitlines(True) if not ln.startswith("#Gain")).encode("ascii"))
+            else:
+                _spoil(p, kind)
+    elif fam == "peer":
+        if kind in ndat:
+            variants = build_peer(wd, cfg, npts={where: ndat[kind]})
+        else:
+            variants = build_peer(wd, cfg)
+            _spoil(os.path.join(wd, f"rec_{where}.vt2"), kind)
+    elif fam in ("mseed1", "gcf"):
+        variants = BUILDERS[fam](wd, cfg)
+        if kind == "two-traces":
+            if fam == "mseed1":
+                kd, nm, dtype, enc = MSEED_PAYLOADS[cfg["payload"]]
+                data = _binary_samples(kd, nm, dtype, n)
+            else:
+                s = F.int_samples(cfg["payload"], n)
+                data = {c: np.array(s[c], dtype=np.int32) for c in COMPS}
+            for order, v in zip(ORDERS, variants):
+                traces = [(_chan(cfg["naming"], c), data[c]) for c in order[:2]]
+                if fam == "mseed1":
+                    F.write_mseed(v["fnames"], traces, cfg["rate"], encoding=enc)
+                else:
+                    F.write_gcf(v["fnames"], traces, cfg["rate"])
+        else:
+            for v in variants:
+                _spoil(v["fnames"], kind)
+    elif fam in ("mseed3", "sac"):
+        variants = BUILDERS[fam](wd, cfg)
+        ext = "mseed" if fam == "mseed3" else "sac"
+        if kind == "duplicated-component":
+            # the east file now holds a second north trace (other samples)
+            p = os.path.join(wd, f"rec_ew.{ext}")
+            if fam == "mseed3":
+                kd, nm, dtype, enc = MSEED_PAYLOADS[cfg["payload"]]
+                data = _binary_samples(kd, nm, dtype, n)
+                F.write_mseed(p, [(_chan(cfg["naming"], "ns"), data["ew"])], cfg["rate"], encoding=enc)
+            else:
+                data = F.float_samples(cfg["payload"], n, np.float32)
+                F.write_sac(p, _chan(cfg["naming"], "ns"), data["ew"], cfg["rate"], "little")
+        else:
+            _spoil(os.path.join(wd, f"rec_{where}.{ext}"), kind)
+    else:
+        raise KeyError(fam)
+    return [dict(v, exp=None) for v in variants]
+
+
+class _Probe:
+    """Stand-in for ctx that only records the oracle names of the violations."""
+    def __init__(self):
+        self.failed = set()
+        self.samples = []
+
+    def count(self, *a, **k):
+        pass
+
+    outcome = nontrivial_case = sample = count
+
+    def violation(self, key, *a, **k):
+        self.failed.add(key.rsplit(":", 1)[-1])
+
+
+def _failed_oracles(fam, exp, res, dfn):
+    """Names of the oracles a read outcome fails ('raised', 'samples', 'dt', 'no-raise', ...)."""
+    if exp is None:
+        return set() if isinstance(res, tuple) else {"no-raise"}
+    probe = _Probe()
+    judge_single(probe, None, fam, None, exp, res, dfn)
+    return probe.failed
+
+
+def _control(fam, sym, label, rd):
+    """The same content under FRESH file names (a new directory), read once."""
+    wd = tempfile.mkdtemp(prefix="hvmc-c07-")
+    try:
+        var = [v for v in hist_write(wd, fam, sym) if v["label"] == label][0]
+        return _call_single(_paths(var["fnames"], rd["pathtype"]), _kwargs(fam, rd["kwargs"]), rd["dfn"])
+    finally:
+        shutil.rmtree(wd, ignore_errors=True)
+
+
+def run_history(root, ctx, tier):
+    fam, rd, prefix, alphabet = root["fmt"], root["read"], list(root["prefix"]), list(root["alphabet"])
+    seen = set()
+    for tail in itertools.product(alphabet, repeat=root["depth"] - len(prefix)):
+        seq = prefix + list(tail)
+        wd = tempfile.mkdtemp(prefix="hvmc-c07-")
+        try:
+            # what the previous read of the same file name(s) in the same order did (observed, per order)
+            before = {}
+            for si, sym in enumerate(seq):
+                variants = hist_write(wd, fam, sym)
+                good = sym.startswith("good:")
+                kind = sym.split(":", 1)[1].partition("@")[0]
+                # a history prefix is one case; it is counted by the root / sequence that owns it
+                hist = tuple(seq[:si + 1])
+                own = hist not in seen and all(x == alphabet[0] for x in prefix[si + 1:])
+                seen.add(hist)
+                for var in variants:
+                    if own:
+                        ctx.count("states")
+                        ctx.nontrivial_case(("history", fam, hist, var["label"], rd))
+                    ctx.count("transitions")
+                    res = _call_single(_paths(var["fnames"], rd["pathtype"]), _kwargs(fam, rd["kwargs"]), rd["dfn"])
+                    prev = before.get(var["label"], "first-read")
+                    before[var["label"]] = ("rewritten-after-failed-read" if isinstance(res, tuple)
+                                            else "rewritten-after-successful-read")
+                    detail = dict(family="history", fmt=fam, history=list(hist), step=si, order=var["label"], read=rd,
+                                  files=[os.path.basename(str(f)) for f in
+                                         (var["fnames"] if isinstance(var["fnames"], list) else [var["fnames"]])],
+                                  how="in ONE fresh directory and ONE process, for each entry of 'history' in turn: "
+                                      "hvmc.checks.c07.hist_write(tmpdir, fmt, entry) (over)writes the same file "
+                                      "name(s), then read_single(files in this order, kwargs, degrees_from_north); "
+                                      "the outcome of the LAST entry is the one judged here")
+                    ctx.count("history_" + ("good_" if good else "bad_") + prev.replace("-", "_"))
+                    if good and si and seq[si - 1].startswith("bad:"):
+                        ctx.count("history_wellformed_over_malformed")
+                    if good and si and seq[si - 1].startswith("good:") and seq[si - 1] != sym:
+                        ctx.count("history_wellformed_over_other_wellformed")
+                    # input class of the keys: a failure that the same content also shows under fresh
+                    # file names does not depend on the history and is reported under the keys of the
+                    # one-read families; only a failure that needs the history gets the history class
+                    cls = "well-formed" if good else f"malformed-{kind}"
+                    failed = _failed_oracles(fam, var["exp"], res, rd["dfn"])
+                    if failed and prev != "first-read":
+                        ctx.count("transitions")
+                        ctl = _control(fam, sym, var["label"], rd)
+                        detail["same_content_under_fresh_names"] = (list(ctl) if isinstance(ctl, tuple)
+                                                                    else _short(_obs(ctl)))
+                        if not failed <= _failed_oracles(fam, var["exp"], ctl, rd["dfn"]):
+                            cls = prev if good else f"malformed-{kind}-{prev}"
+                    if good:
+                        judge_single(ctx, root, fam, detail, var["exp"], res, rd["dfn"], cls=cls)
+                        if prev == "rewritten-after-failed-read" and len(ctx.samples) < 5 and var is variants[-1]:
+                            ctx.sample(dict(detail, expected=_short_exp(var["exp"], rd["dfn"]),
+                                            observed=list(res) if isinstance(res, tuple) else _short(_obs(res))))
+                        continue
+                    ctx.count("validated")
+                    if isinstance(res, tuple) and res and res[0] == "raised":
+                        ctx.outcome(("refused", fam, sym, res[1]))
+                        ctx.count("refused")
+                        continue
+                    o = _obs(res)
+                    ctx.outcome(("accepted", fam, sym) + _obs_digest(o))
+                    ctx.violation(f"C07:read_single:{fam}:{cls}:no-raise", root,
+                                  detail=detail, expected="an exception", observed=_short(o),
+                                  explanation=f"the {fam} file(s) hold a malformed content ('{sym[4:]}') at the moment "
+                                              f"of this read ({prev}); a recording is returned instead of raising")
+        finally:
+            shutil.rmtree(wd, ignore_errors=True)
+
+
+def _history_roots(tier):
+    out = []
+    for fam in SPACES:
+        alphabet, h = _hist_alphabet(fam, tier)
+        for rd in HIST_READS[tier]:
+            for pre in itertools.product(alphabet, repeat=h["prefix"]):
+                out.append(dict(family="history", fmt=fam, prefix=list(pre), depth=h["depth"], alphabet=alphabet,
+                                read=rd))
+    return out
+
+
+# ---------------------------------------------------------------------------
 # the repository's own example files
 
 EXAMPLE_DIR = "/repo/test/data/input"
@@ -982,6 +1270,7 @@ def roots(tier, seed):
         for v in variants:
             out.append(dict(family="malformed", fmt=fmt, variant=v))
     out += _read_lists(tier)
+    out += _history_roots(tier)
     out += [dict(family="examples", name=name) for name in EXAMPLES]
     return out
 
@@ -994,6 +1283,8 @@ def run_root(root, ctx, tier):
         run_read(root, ctx, tier)
     elif fam == "examples":
         run_example(root, ctx, tier)
+    elif fam == "history":
+        run_history(root, ctx, tier)
     else:
         run_family(root, ctx, tier)
 
@@ -1016,6 +1307,10 @@ def finalize(ctx, tier):
         ctx.violation("C07:harness:vacuous", None, explanation="no case in which a swap of ns and ew would be visible")
     if c.get("validated", 0) and not c.get("refused", 0):
         ctx.violation("C07:harness:vacuous-refusal", None, explanation="no malformed input was refused")
+    if c.get("validated", 0) and not (c.get("history_wellformed_over_malformed", 0)
+                                      and c.get("history_wellformed_over_other_wellformed", 0)):
+        ctx.violation("C07:harness:vacuous-history", None,
+                      explanation="no read of a well-formed content written over a malformed / another well-formed one")
     ctx.notes["sizes"] = {fam: product.size({**SPACES[fam]["file"], **SPACES[fam]["read"]}, K[tier][fam])
                           for fam in SPACES}
 
@@ -1030,10 +1325,19 @@ def describe(tier):
              "from the default is run, and inside every file configuration ALL 6 orders of the traces in the file "
              "/ files in the list (SAF: 6 column layouts); plus every listed malformed variant (must raise) and "
              "read() on every list of 1-3 recordings from a pool x 5 kwargs shapes x 3 degrees_from_north shapes "
-             "(covering the 9 None/one value/list combinations), each element compared with read_single. A case "
-             "is distinct by (family, file configuration, order, read options).",
+             "(covering the 9 None/one value/list combinations), each element compared with read_single; plus, per "
+             "format, ALL histories of a fixed length over a step alphabet of well-formed and malformed contents "
+             "written to the SAME file name(s) inside one process (write, read, overwrite, read ...; all 6 orders "
+             "at every step), every read judged with the per-format oracle for what the files hold at that "
+             "moment - a failure that the same content also shows under fresh file names is keyed as in the "
+             "one-read families, one that needs the history is keyed rewritten-after-failed-read / "
+             "rewritten-after-successful-read. A case is distinct by (family, file configuration, order, read "
+             "options) resp. (format, history, order, read options).",
         bounds=dict(deviations=k, orders=6, malformed_variants={f: len(v) for f, v in MALFORMED.items()},
                     read_pool=READ_POOL[tier], read_list_lengths=[1, 2, 3],
+                    history={fam: dict(steps=_hist_alphabet(fam, tier)[0], length=_hist_alphabet(fam, tier)[1]["depth"],
+                                       sequences=len(_hist_alphabet(fam, tier)[0]) ** _hist_alphabet(fam, tier)[1]["depth"],
+                                       reads=HIST_READS[tier]) for fam in SPACES},
                     space_sizes={fam: product.size({**SPACES[fam]["file"], **SPACES[fam]["read"]}, k[fam])
                                  for fam in SPACES}),
         exhaustive=True,
@@ -1053,4 +1357,7 @@ def describe(tier):
             "explicit degrees_from_north is compared modulo 360 (x % 360 in [0, 360))",
             "a three-file list in which one file holds surplus traces is only counted, not judged",
             "the repository's example files are read from /repo/test/data/input when present",
+            "histories: every sequence runs in its own fresh directory inside the worker process that also runs "
+            "other roots, so hidden state keyed by something other than the path may carry over between sequences; "
+            "bounded to the listed step alphabet and length, one set of file names per sequence",
         ])
